@@ -90,6 +90,34 @@ def handle (j : Json) : Except String Json := do
       | some p => Json.mkObj [("files", SL p.files), ("output", optS p.output), ("recursive", p.recursive), ("prefix", optS p.pfx),
           ("settings", optS p.settings), ("excludes", SL p.excludes)]
     pure (Json.mkObj [("argv", SL argv), ("parsed", pj (parseArgv argv {}))])
+  | "cminx" =>
+    -- the whole program: argument vector, the configuration files as flat sources, what the input paths denote
+    let argv ← getStrList j "argv"
+    let sfiles : List (Str × Source) := match j.getObjVal? "sfiles" with
+      | .ok (Json.obj kvs) => kvs.toList.map (fun (k, v) => (k.toList, sourceOf v))
+      | _ => []
+    let user := sourceOf ((j.getObjVal? "user").toOption.getD (Json.mkObj []))
+    let defaults := sourceOf ((j.getObjVal? "defaults").toOption.getD (Json.mkObj []))
+    let worldTbl : List (Str × World) ← match j.getObjVal? "world" with
+      | .ok (Json.obj kvs) => kvs.toList.mapM (fun (k, v) => do
+          let mi ← mainInputOf v
+          let ab ← getStrList v "abs"
+          pure (k.toList, ({ inp := mi.inp, absPath := ab } : World)))
+      | _ => pure []
+    let world : Str → World := fun a => match worldTbl.lookup a with
+      | some w => w
+      | none => { inp := .missing a, absPath := [a] }
+    let strip := match j.getObjVal? "strip" with | .ok v => v | .error _ => Json.mkObj []
+    match cminxMain argv (fun f => (sfiles.lookup f).getD []) user defaults world
+        (stripTable strip "fn") (stripTable strip "macro") (stripTable strip "member") with
+    | .usage => pure (Json.mkObj [("outcome", "usage")])
+    | .configError k => pure (Json.mkObj [("outcome", "config"), ("key", S k)])
+    | .badPattern => pure (Json.mkObj [("outcome", "badpattern")])
+    | .unsupportedPatterns => pure (Json.mkObj [("outcome", "unsupported")])
+    | .ran r st =>
+      pure (Json.mkObj [("outcome", "ran"),
+        ("writes", Json.arr (r.writes.map (fun w => Json.mkObj [("path", SL w.path), ("content", S w.content)])).toArray),
+        ("stdout", S r.stdout), ("status", statusJson st)])
   | "mainargs" =>
     -- an argument vector of `cminx.main`: does the model decide it, what the parser extracts, and the command-line source
     let argv ← getStrList j "argv"
